@@ -12,7 +12,7 @@ from valida.data import Data
 from valida.datapath import DataPath
 
 META = {
-    "rule": "every path (length bound) over the part alphabet x every document of the family; a case is "
+    "rule": "(plus H: 19 confusable paths -- 1 / 1.0 / True / '1' as primitives and explicit parts -- each as the first path resolved in a pristine process followed by all 19) every path (length bound) over the part alphabet x every document of the family; a case is "
             "one (path, document) pair executed through 5 entry points; non-trivial = the reference walk "
             "selects at least one node; distinct by construction (path index x document index)",
     "assumptions": ["conditions inside parts are from the well-typed alphabet of mc.gen (their leaf meanings "
@@ -60,12 +60,32 @@ def prepare(tier):
         family(fam)
 
 
+# H-space for hidden resolver state: paths that differ only by 1 / 1.0 / True / '1' (as primitives and as explicit
+# parts); each unit is a pristine process in which path i is resolved first (all entry points), then every path
+CONFUSABLE = [T.path(p) for p in (
+    (("prim", 1),), (("prim", 1.0),), (("prim", True),), (("prim", "1"),), (("prim", 0),), (("prim", 0.0),), (("prim", False),),
+    (("map", ("lit", 1), None, None),), (("map", ("lit", "1"), None, None),), (("map", ("lit", 1.0), None, None),),
+    (("map", ("lit", True), None, None),), (("list", ("lit", 1), None, None),), (("mol", ("lit", "1"), ("lit", 1), None, None),),
+    (("prim", "a"), ("prim", 1)), (("prim", "a"), ("prim", 1.0)), (("prim", "a"), ("prim", "1")), (("prim", "a"), ("prim", True)),
+    (("map", ("lit", "a"), None, None), ("prim", 1)), (("prim", "a"), ("map", ("lit", 1), None, None)),
+)]
+CONF_DOCS = [["p", "q", "r"], {1: "int", "1": "str", "a": ["x", "y"], 0: "zero"}, {"a": {1: "i", "1": "s", 1.5: "f"}, True: "t"},
+             {1.0: "float", "a": {"1": "s"}}, [["m", "n"], {"1": 5, 1: 6}]]
+
+
 def units(tier):
-    return gen.chunks(len(_paths(tier)), 8 if tier == "quick" else 12)
+    return gen.chunks(len(_paths(tier)), 8 if tier == "quick" else 12) + [["H", i] for i in range(len(CONFUSABLE))]
 
 
 def run_unit(unit, tier):
     res = Result()
+    if unit[0] == "H":
+        order = [unit[1]] + list(range(len(CONFUSABLE)))
+        for n, j in enumerate(order):
+            for di, doc in enumerate(CONF_DOCS):
+                check_case(res, CONFUSABLE[j], doc, key=("H", unit[1], n, di), history=[CONFUSABLE[k] for k in order[:n]])
+        res.sample({"path": CONFUSABLE[unit[1]], "doc": CONF_DOCS[0], "history": []})
+        return res
     ps = _paths(tier)
     for pi in range(unit[0], unit[1]):
         p, fam = ps[pi]
@@ -78,6 +98,9 @@ def run_unit(unit, tier):
 
 def replay(case):
     res = Result()
+    for p in case.get("history", []):      # re-create the history (everything resolved before, in this process)
+        for doc in CONF_DOCS:
+            check_case(Result(), p, doc, key=("replay-h",))
     check_case(res, case["path"], case["doc"], key=("replay",))
     return list(res.violations.values())
 
@@ -121,10 +144,12 @@ def compare(res, got, sel, conc, p, doc, case, entry, identity=True):
     return ok
 
 
-def check_case(res, p, doc, key):
+def check_case(res, p, doc, key, history=None):
     res.count("evaluations")
     res.state(*key)
     case = {"path": p, "doc": doc}
+    if history:
+        case["history"] = history
     d = fresh(doc)
     before = vsnap(d)
     sel = ref.walk(p, d)
